@@ -60,6 +60,22 @@ Definition consensus_spread_sq (col : list Q) : Q :=
 Definition sorted_by {A} (leb : A -> A -> bool) (l : list A) : Prop :=
   StronglySorted (fun a b => leb a b = true) l.
 
+(* ---- bounded noise: the "~" clauses of the property, made deterministic ---------------------------- *)
+(* A cohort of normals "differing only in depth plus noise": every file is a common profile plus a
+   per-file constant, up to eps in every bin.  Then (Props/C05.v, the C05_bounded_noise theorems), with r the
+   largest distance of a value of the bin's column -- the flat pseudo-sample included -- from the
+   ideal value v,
+        r = max (2 eps) |flat - v|            (2 eps: eps of noise + eps the centring can move),
+   the reference's log2 is within r of v and  spread^2 <= spread_K_radius * r^2;  when the flat level is
+   the ideal value itself (a profile centred at the flat level), r = 2 eps and
+        spread^2 <= spread_K * eps^2. *)
+Definition noise_radius (eps flat v : Q) : Q := Qmax2 (2 * eps) (Qabs (flat - v)).
+Definition spread_K_radius : Q := 62.       (* two regimes: 59.5 and 61.2, see Proofs/ReferenceNoise.v *)
+Definition spread_K : Q := 248.             (* 62 * 2^2 *)
+(* the property's tolerance for "~": 0.15; reached by 2 eps at eps = 3/40 *)
+Definition tolerance : Q := 15 # 100.
+Definition tolerance_eps : Q := 3 # 40.
+
 (* the depth column: the same location estimator over the samples' depths alone (no pseudo-sample); one sample's
    depth is that sample's depth *)
 Definition consensus_depth (dcol : list Q) : Q :=
